@@ -332,11 +332,17 @@ def run_impl_est(case):
                     for nm in en:
                         db["res_" + nm] = ir.Series(start=START, values=srng.integers(-9, 10, size=(cols, nvar)).astype(float))
             kw["target_db"] = tdb
+        tkeys = None if target is None else list(kw["target_db"].keys())
+        tids = None if target is None else {k: id(kw["target_db"][k]) for k in tkeys}
         with warnings.catch_warnings(), np.errstate(all="ignore"):
             warnings.simplefilter("ignore")      # division by T_fitted - K = 0 (the model answers err:dof) only warns
             out = v.estimate(db, span, dof_correction=case["dof"], prior_obs=priors, num_variants=nvar, **kw)
     except Exception as e:
         return {"error": impl_err(e), "exc": repr(e)[:300]}
+    # which object sits under every name of the returned databox: the target's (t) or a fresh one (o); the target afterwards
+    merge_obs = {"target_keys": tkeys,
+                 "returned": [(k, "t" if (tids is not None and tids.get(k) == id(out[k])) else "o") for k in out.keys()],
+                 "target_untouched": True if target is None else (list(kw["target_db"].keys()) == tkeys and all(id(kw["target_db"][k]) == tids[k] for k in tkeys))}
     res = []
     systems = v.get_system_matrices(unpack_singleton=False)
     for vid in range(nvar):
@@ -348,7 +354,7 @@ def run_impl_est(case):
         # the residual series written back into the output databox
         r["u_db"] = np.array([out["res_" + nm].get_data(full)[:, vid] for nm in en])
         res.append(r)
-    info = {"variants": res, "model": v, "out": out, "span": span, "full": full, "en": en, "xn": xn}
+    info = {"variants": res, "model": v, "out": out, "span": span, "full": full, "en": en, "xn": xn, "merge": merge_obs}
     # what the call returns also carries the data it was given and, with target_db, everything else the target held
     try:
         info["out_y"] = [np.array([out[nm].get_data(full)[:, vid] for nm in en]) for vid in range(nvar)]
@@ -606,6 +612,14 @@ def oracle_est(ctx: Ctx, case, info, post):
             ctx.fail("residual-write-back", small(case), f"variant {vid}: the res_* series of the databox RETURNED by estimate"
                      f"{'(target_db=' + str(case.get('target')) + ')' if case.get('target') else ''} differ from the residual estimates, "
                      "so fitted equation + returned residual does not reproduce the data")
+        if vid == 0 and "merge" in info:
+            mo = info["merge"]
+            produced = set(info["en"]) | set(info["xn"]) | {"res_" + nm for nm in info["en"]}
+            tags = dict(mo["returned"])
+            bad = [k for k in produced if tags.get(k) != "o"] + [k for k in (mo["target_keys"] or []) if k not in produced and tags.get(k) != "t"]
+            if bad or not mo["target_untouched"]:
+                ctx.fail("returned-databox", small(case), f"estimate(target_db={case.get('target')}): names {sorted(bad)} of the returned databox do not hold "
+                         f"the fresh result / the target's own entry, or the target was modified (untouched={mo['target_untouched']})")
         # the returned databox also carries the data it was given and, with target_db, whatever else the target held
         if "out_exc" in info:
             ctx.fail("returned-databox", small(case), f"variant {vid}: reading the returned databox raised " + info["out_exc"])
@@ -801,12 +815,17 @@ def compare_est(ctx: Ctx, case, info, post, replies):
 # streams
 # ---------------------------------------------------------------------------------------
 
+def merge_line(target_keys, out_names):
+    return " ".join(["merge", "-" if target_keys is None else "T"] + [f"{k}:t" for k in (target_keys or [])] + ["|"] + [f"{k}:o" for k in out_names])
+
+
 def do_est_cases(ctx: Ctx, cases, with_model=True):
     lines, owners = [], []
     for ci, case in enumerate(cases):
         for vid in range(len(case["variants"])):
             lines.append(est_line(case, vid)); owners.append(ci)
     replies = ctx.model("C18", lines) if with_model else None
+    merge_cases = []
     k = 0
     for ci, case in enumerate(cases):
         nv = len(case["variants"])
@@ -821,6 +840,9 @@ def do_est_cases(ctx: Ctx, cases, with_model=True):
         nmiss = sum(1 for v in case["variants"] for row in v["Y"] + v["X"] for x in row if x is None)
         ctx.count("est:missing-cells=" + str(min(nmiss, 3)))
         oracle_est(ctx, case, info, post)
+        if "merge" in info:
+            en_, xn_ = names_of(case["n"], case["m"])
+            merge_cases.append((case, info["merge"], en_ + xn_ + ["res_" + nm for nm in en_]))
         if replies is not None:
             compare_est(ctx, case, info, post, replies[k:k + nv])
         k += nv
@@ -828,6 +850,43 @@ def do_est_cases(ctx: Ctx, cases, with_model=True):
             ctx.sample({"stream": "est", "case": {kk: vv for kk, vv in case.items() if kk != "gen"},
                         "implementation": "error " + info["error"] if "error" in info else
                         {"A": info["variants"][0]["A"].round(6).tolist(), "mask": info["variants"][0]["mask"]}})
+
+
+    # what estimate(target_db=...) returns, as a finite map: the model's estimateReturn on (target names, produced names)
+    if with_model and merge_cases:
+        mlines = [merge_line(mo["target_keys"], names) for _, mo, names in merge_cases]
+        mrep = ctx.model("C18", mlines)
+        if mrep is not None:
+            ctx.streams_compared["estimate-return"] = ctx.streams_compared.get("estimate-return", 0) + len(mlines)
+            for (case, mo, names), rep in zip(merge_cases, mrep):
+                impl = " ".join(f"{k}:{t}" for k, t in mo["returned"])
+                if impl != rep and len([d for d in ctx.disagreements if d["stream"] == "estimate-return"]) < 10:
+                    ctx.disagree("estimate-return", small(case), impl, rep)
+
+
+def do_union_cases(ctx: Ctx, n_cases, with_model=True):
+    """Databox `left | right` on random small databoxes against the model's dbUnion (exact, key order included)"""
+    rng = ctx.rng.fork("union")
+    keys = ["a", "b", "c", "d", "e", "res_a"]
+    lines, impl = [], []
+    for _ in range(n_cases):
+        lk = rng.sample(keys, rng.randint(0, 5)); rk = rng.sample(keys, rng.randint(0, 5))
+        left = ir.Databox(); right = ir.Databox()
+        for k in lk:
+            left[k] = "L" + k
+        for k in rk:
+            right[k] = "R" + k
+        u = left | right
+        impl.append(" ".join(f"{k}:{u[k]}" for k in u.keys()))
+        lines.append(" ".join(["merge", "T"] + [f"{k}:L{k}" for k in lk] + ["|"] + [f"{k}:R{k}" for k in rk]))
+        ctx.evaluations += 1
+        # oracle (dict semantics from the statement "fresh results override, the rest is carried over")
+        if {k: u[k] for k in u.keys()} != {**{k: "L" + k for k in lk}, **{k: "R" + k for k in rk}} or list(left.keys()) != lk or list(right.keys()) != rk:
+            ctx.fail("databox-union", {"op": "union", "left": lk, "right": rk}, "left | right is not 'right wins, rest carried over, operands untouched'")
+    if with_model:
+        rep = ctx.model("C18", lines)
+        if rep is not None:
+            ctx.compare("databox-union", lines, impl, rep)
 
 
 def do_sim_cases(ctx: Ctx, cases, with_model=True):
@@ -882,9 +941,18 @@ def do_sim_cases(ctx: Ctx, cases, with_model=True):
                     break
 
 
+def comph_line(case):
+    ws = ["comph", case["n"], case["p"], int(case["icpt"])] + [x for row in case["A"] for x in row]
+    if case["icpt"]:
+        ws += case["c"]
+    ws += [int(bool(d)) for d in (case.get("calls") or [False])]
+    return " ".join(str(w) for w in ws)
+
+
 def do_comp_cases(ctx: Ctx, cases, with_model=True):
     lines = [comp_line(c) for c in cases]
     replies = ctx.model("C18", lines) if with_model else None
+    hreplies = ctx.model("C18", [comph_line(c) for c in cases]) if with_model else None
     for ci, case in enumerate(cases):
         ctx.evaluations += 1
         n, p = case["n"], case["p"]
@@ -899,8 +967,10 @@ def do_comp_cases(ctx: Ctx, cases, with_model=True):
         calls = case.get("calls") or [False]
         ctx.count("comp:calls=" + "+".join("dev" if d else "ord" for d in calls))
         sol = None
+        hist = []
         for k, dev in enumerate(calls):
             sk = var._get_companion_solution(deviation=dev)
+            hist.append("T=" + canon_qmat_text(show_exact(np.array(sk.T))) + ";K=" + " ".join(str(Fr(rat_of_float(x))) for x in np.array(sk.K)))
             if not np.array_equal(np.array(sk.K), np.zeros(n * p) if dev else Kwant):
                 ctx.fail("companion-form", case, f"request {k + 1} of {['dev' if d else 'ord' for d in calls]}: companion K = "
                          f"{np.array(sk.K).tolist()}, expected {'zeros' if dev else Kwant.tolist()}")
@@ -923,6 +993,15 @@ def do_comp_cases(ctx: Ctx, cases, with_model=True):
         if mu is not None and abs(np.linalg.det(IA)) > 1e-6 and np.max(np.abs(IA @ mu - cvec)) > 1e-9 * max(1.0, np.max(np.abs(mu))):
             ctx.fail("mean", case, "(I - sum A_i) mean != c")
         ctx.nontriv(("comp", n, p, case["icpt"], bool(c is not None and np.any(c != 0))))
+        if hreplies is not None:
+            # the request history replayed on the model's state machine, request by request
+            ctx.streams_compared["comp-history"] = ctx.streams_compared.get("comp-history", 0) + len(calls)
+            mh = []
+            for seg in hreplies[ci].split(" | "):
+                q_ = dict(part.partition("=")[::2] for part in seg.split(";"))
+                mh.append("T=" + canon_qmat_text(q_.get("T", "0 0")) + ";K=" + " ".join(str(Fr(x)) for x in q_.get("K", "").split()))
+            if mh != hist and len([d for d in ctx.disagreements if d["stream"] == "comp-history"]) < 10:
+                ctx.disagree("comp-history", case, " | ".join(hist)[:400], " | ".join(mh)[:400])
         if replies is not None:
             ctx.streams_compared["comp"] = ctx.streams_compared.get("comp", 0) + 1
             q = dict(part.partition("=")[::2] for part in replies[ci].split(";"))
@@ -996,6 +1075,7 @@ def run(ctx: Ctx):
     do_est_cases(ctx, est)
     do_sim_cases(ctx, sim)
     do_comp_cases(ctx, comp)
+    do_union_cases(ctx, ctx.n(150, 1500))
 
 
 def search(ctx: Ctx, seeds):
